@@ -155,6 +155,8 @@ pub enum Source {
 pub struct Plan {
     pub wops: Vec<WOp>,
     pub faults: Vec<(u64, SinkFault)>,
+    /// the sink accepts at most this many bytes per write call (0 = no limit): short writes
+    pub trickle: usize,
     pub source: Source,
     pub window: Option<(usize, usize)>,
     pub rops: Vec<ROp>,
@@ -243,6 +245,7 @@ impl Plan {
             "site": "c13-history",
             "wops": self.wops.iter().map(wop_json).collect::<Vec<_>>(),
             "sink_faults": self.faults.iter().map(|(i, f)| json!([i, f.name()])).collect::<Vec<_>>(),
+            "sink_max_accept": self.trickle,
             "source": match &self.source {
                 Source::Sink => json!("sink"),
                 Source::SinkEof(k) => json!({"sink_eof_after_bytes": k}),
@@ -269,6 +272,7 @@ impl Plan {
                         .collect()
                 })
                 .unwrap_or_default(),
+            trickle: j["sink_max_accept"].as_u64().unwrap_or(0) as usize,
             source: if let Some(k) = j["source"].get("sink_eof_after_bytes") {
                 Source::SinkEof(pu64(k) as usize)
             } else if let Some(b) = j["source"].get("bytes") {
@@ -372,6 +376,9 @@ pub struct ExecStats {
 fn exec(plan: &Plan, st: &mut ExecStats) -> Result<(), Viol> {
     // ------------------------------------------------------------------ writer phase
     let sink = Rc::new(RefCell::new(SimSink::new(plan.faults.clone())));
+    if plan.trickle > 0 {
+        sink.borrow_mut().max_accept = plan.trickle;
+    }
     let mut w = BitWriter::new(Shared(sink.clone()));
     let mut logical: Vec<bool> = Vec::new(); // all op bits, in order
     let mut phys: Vec<bool> = Vec::new(); // bits as they must appear on the device, incl. flush padding
@@ -1131,7 +1138,7 @@ fn gen_plan(r: &mut Rng) -> Plan {
     let close = r.chance(1, 2);
     Plan {
         wops,
-        faults: vec![],
+        faults: vec![], trickle: 0,
         source: Source::Sink,
         window: None,
         rops,
@@ -1205,7 +1212,7 @@ impl C13 {
             rops.push(ROp::Count);
             let plan = Plan {
                 wops,
-                faults: vec![],
+                faults: vec![], trickle: 0,
                 source: Source::Sink,
                 window: None,
                 rops,
@@ -1283,7 +1290,7 @@ impl Engine for C13 {
                 if n <= u128::from(u64::MAX) && (usize::BITS == 64) {
                     let plan = Plan {
                         wops: vec![WOp::Bits(r.next_u64(), r.usize_below(8)), WOp::Nat(n as u64)],
-                        faults: vec![],
+                        faults: vec![], trickle: 0,
                         source: Source::Sink,
                         window: None,
                         rops: vec![],
@@ -1347,7 +1354,7 @@ impl Engine for C13 {
                 let ty = *r.pick(&NTy::ALL);
                 rops.push(ROp::Nat(ty, if r.chance(1, 3) { Some(i128::from(r.next_u64())) } else { None }));
                 rops.push(ROp::Count);
-                let plan = Plan { wops: vec![], faults: vec![], source: Source::Bytes(pack(&bits)), window: None, rops, close: false, collect: false };
+                let plan = Plan { wops: vec![], faults: vec![], trickle: 0, source: Source::Bytes(pack(&bits)), window: None, rops, close: false, collect: false };
                 self.exec_plan(&plan, out);
                 out.count("edge_of_range_naturals", 1);
                 return;
@@ -1355,7 +1362,7 @@ impl Engine for C13 {
             let n = r.urange(1, 12);
             let plan = Plan {
                 wops: vec![],
-                faults: vec![],
+                faults: vec![], trickle: 0,
                 source: Source::Bytes(bytes),
                 window: None,
                 rops: random_rops(&mut r, n),
@@ -1366,7 +1373,12 @@ impl Engine for C13 {
             out.count("arbitrary_byte_string_plans", 1);
             return;
         }
-        let base = gen_plan(&mut r);
+        let mut base = gen_plan(&mut r);
+        if r.chance(1, 3) {
+            // a trickling device: short writes on every multi-byte call
+            base.trickle = r.urange(1, 3);
+            out.count("short_write_sink_histories", 1);
+        }
         out.sample(|| base.to_json());
         let st = self.exec_plan(&base, out);
         out.count("base_histories", 1);
@@ -1543,6 +1555,7 @@ impl Engine for C13 {
             "close_ok",
             "close_err",
             "window_variants",
+            "short_write_sink_histories",
         ]
     }
 }
